@@ -109,7 +109,7 @@ static uint64_t workload(uint64_t seed, long ops, int with_shared) {
       size_t w = cbor_serialize(it, out, sizeof out);
       h = fnv(h, out, w);
       unsigned char* ab = NULL; size_t abs_ = 0;
-      size_t w2 = cbor_serialize_alloc(it, &ab, &abs_);
+      size_t w2 = (i & 1) ? cbor_serialize_alloc(it, &ab, &abs_) : cbor_serialize_alloc(it, &ab, NULL); /* the size output is optional */
       h = fnv(h, ab, w2);
       t_free(ab);
       cbor_item_t* cp = cbor_copy(it);
